@@ -177,7 +177,7 @@ class C10(Property):
             geom, grid = gen.build_cart(spec["grid"])
         else:
             geom, grid = O.CartGeom([0.0] * dim, [1] * dim, [1.0] * dim, [False] * dim), None
-        objs = [cls(np.array(d["position"], float), d["radius"]) for d in ds]
+        objs = [cls(*gen.as_given(d["position"], d["radius"], [d, k])) for k, d in enumerate(ds)]
         em = Emulsion(objs, copy=False)
         P = np.array([d["position"] for d in ds], float).reshape(n, dim)
         R = np.array([d["radius"] for d in ds], float)
